@@ -197,6 +197,24 @@ Definition result_val (r : result) : val :=
 
 Definition valid_code (k : N) : bool := k <? 16.
 
+(* category tables under grouping (Context.push / Context.pop around \catcode assignments): an assignment changes the table
+   of the innermost group only, leaving a group brings back the table that was in force when it was entered.
+   ops: (c, k) with k < 16 assigns; k = 16 enters a group; k = 17 leaves one (ignored at the outer level). *)
+Fixpoint apply_gops (stack : list table) (cur : table) (ops : list (N * N)) : table :=
+  match ops with
+  | [] => cur
+  | (c, k) :: r =>
+    if k =? 16 then apply_gops (cur :: stack) cur r
+    else if k =? 17 then match stack with s :: st => apply_gops st s r | [] => apply_gops [] cur r end
+    else apply_gops stack (set_catcode cur c k) r
+  end.
+(* [bal d ops]: starting inside d open groups, ops never leaves more groups than are open and ends with all of them left *)
+Fixpoint bal (d : nat) (ops : list (N * N)) : bool :=
+  match ops with
+  | [] => Nat.eqb d 0
+  | (_, k) :: r => if k =? 16 then bal (S d) r else if k =? 17 then match d with S d' => bal d' r | O => false end else bal d r
+  end.
+
 Definition run_case (v : val) : val :=
   match v with
   | VL [VI base; VL ops; chars; VL sched] =>
@@ -207,6 +225,15 @@ Definition run_case (v : val) : val :=
         result_val (tokenize_sched (sched_of sched) (apply_ops t0 ops) chars)
       else v_bad_input
     | _, _, _ => v_bad_input
+    end
+  | VL [VI 8; VL ops; VL cs] =>
+    (* table algebra with groups: (8 ops chars) -> which_code of each char after the grouped assignments *)
+    match mapM pair_of ops, mapM getN cs with
+    | Some ops, Some cs =>
+      if forallb (fun ck => snd ck <? 18) ops then
+        VL (map (fun c => ofN (which_code (apply_gops [] default_table ops) c)) cs)
+      else v_bad_input
+    | _, _ => v_bad_input
     end
   | VL [VI 9; VL ops; VL cs] =>
     (* table algebra only: (9 ops chars) -> which_code of each char under default+ops *)
